@@ -134,13 +134,13 @@ class Pair(Vector):
                                                 lshape)
 
         # Swap the axes and negate the new y
-        new_values = new_values[..., ::-1]
+        new_values = new_values[..., ::-1].copy()
+        new_values[...,1] = -new_values[...,1]      # negate the new y-axis
 
         # Roll the axis back
         new_values = np.rollaxis(new_values, -1, lshape - self._drank_ - 1)
 
         # Construct the object
-        new_values[...,1] = -new_values[...,1]      # negate the new y-axis
         obj = Pair(new_values, self._mask_, example=self)
 
         # Fill in the derivatives if necessary
